@@ -355,7 +355,9 @@ example : wrapStr " \n<!DOCTYPE html><a></a>".toList = "<xxxblank> \n<!DOCTYPE h
   `renderToks` / `ListOK` (Lemmas/LexRoundTrip.lean): the serialisers' output grammar and "every token well formed
   and followed by something that keeps it a token of its own" — the side condition of `lexStrict_renderToks`.
   `ListOK` contains the two conditions that matter for the wrapper: a doctype declaration has no `>` inside
-  (`TokOK (.decl d)`), and a data run is not followed by another data run (`Follows`). -/
+  (`TokOK (.decl d)`), and a data run is not followed by another data run (`Follows`).  `ListOK` is the inductive
+  predicate of C01 and includes raw-text elements (`script` / `style`: start tag, content as at most one data token
+  with `RawOK`, end tag); every theorem below is for all of it (`sampleRawDoc`). -/
 
 /-- **C02f (`DOCTYPE_MATCH`: characters = tokens).** On the rendering of a token list in the serialiser's image,
     `DOCTYPE_MATCH.match` finds exactly the rendering of what `leadDoctype` finds on the tokens: a leading
@@ -439,6 +441,43 @@ example : feedText (renderToks sampleDoc) = some (.doc (Spec.build sampleDoc).1 
     intro t ht
     simp [sampleDoc] at ht
     rcases ht with rfl | rfl | rfl | rfl | rfl | rfl <;> decide)
+
+/-! non-vacuity with a raw-text element: `ListOK` contains `script` / `style` blocks whose content is ONE data token
+    with `<`, `&&`, another element's end tag (`ListOK.raw`); the C02f theorems hold for them as stated — the
+    wrapper is placed after the doctype, the script's content stays one token, the second pass is taken -/
+def sampleRawDoc : List Token :=
+  [.data "\n ".toList, .decl "DOCTYPE html".toList, .start "script".toList [],
+   .data "if(a<b&&c){s='</div>'}".toList, .end_ "script".toList, .start "br".toList []]
+
+theorem sampleRawDoc_ok : ListOK sampleRawDoc := by
+  refine .cons (Or.inr (Or.inr ⟨by decide, by decide⟩)) ?_
+    (.cons ⟨by decide, by decide⟩ trivial
+      (.raw (by decide) (by simp) (by decide) (by decide)
+        (.cons ⟨tagOK_br, by decide, fun x hx => by simp at hx⟩ trivial .nil)))
+  simp only [Follows]
+  rw [if_neg (by decide), if_neg (by decide)]
+  exact Or.inr ⟨_, Or.inl rfl⟩
+
+example : ∃ t ∈ sampleRawDoc, ¬ TokOK t := ⟨.data "if(a<b&&c){s='</div>'}".toList, by simp [sampleRawDoc], by decide⟩
+example : renderToks sampleRawDoc = "\n <!DOCTYPE html><script >if(a<b&&c){s='</div>'}</script><br >".toList := by decide
+example : doctypePrefix (renderToks sampleRawDoc)
+    = some ("\n <!DOCTYPE html>".toList, "<script >if(a<b&&c){s='</div>'}</script><br >".toList) := by
+  rw [doctypeMatch_text_eq_tokens _ sampleRawDoc_ok]; decide
+example : lexStrict (wrapStr (renderToks sampleRawDoc))
+    = some [.data "\n ".toList, .decl "DOCTYPE html".toList, .start wrapperName [], .start "script".toList [],
+        .data "if(a<b&&c){s='</div>'}".toList, .end_ "script".toList, .start "br".toList [], .end_ wrapperName] := by
+  rw [wrapText_lex_eq_wrapToks _ sampleRawDoc_ok]; decide
+example : (Spec.build sampleRawDoc).2 = true := by decide
+example : feedText (renderToks sampleRawDoc) = some (.doc (Spec.build sampleRawDoc).1 true) :=
+  feedText_eq_spec sampleRawDoc sampleRawDoc_ok (by
+    intro t ht
+    simp [sampleRawDoc] at ht
+    rcases ht with rfl | rfl | rfl | rfl | rfl | rfl <;> decide)
+/-- a raw-text element first: no doctype on either side, the wrapper is in front -/
+example : lexStrict (wrapStr (renderToks [.start "style".toList [], .end_ "style".toList, .data "x".toList]))
+    = some [.start wrapperName [], .start "style".toList [], .end_ "style".toList, .data "x".toList, .end_ wrapperName] :=
+  wrapText_lex_other _ (.rawEmpty (by decide) (by simp)
+    (.cons (Or.inr (Or.inr ⟨by decide, by decide⟩)) (Or.inl rfl) .nil)) rfl
 
 /-! the side conditions are needed.
     (1) A `>` inside the declaration (`TokOK (.decl d)` fails): the tokenizer and `DOCTYPE_MATCH` both end the
